@@ -26,7 +26,7 @@ def assist(project, source, position, filename=None, debug=False):
     ln, col = position
     line = source.lines[ln - 1][:col]
     prefix = re.search(r'\w*$', line).group()
-    if line.lstrip().startswith('from ') and ' import ' not in line:
+    if line.lstrip().startswith('from ') and not re.search(r'\simport[\s(]', line):
         iname = line.rpartition(' ')[2]
         package, sep, prefix = iname.rpartition('.')
         if (not package or package.startswith('.')) and sep:
